@@ -38,6 +38,11 @@ def shadow_creation(chk, pid):
     ok = "_paper_trade" in ws and canon(ws["_paper_trade"].value) == canon(sym.FALSE)
     chk.ob("C09.R1", ok, CORE, host, "shadow-not-paper-trading", "the shadow itself computes its own index (no shadow of the shadow)", where=fi.where)
     calls = [e for e in S.events if e.kind == "call" and e.recv is not None and canon(e.recv) == canon(paper)]
+    other_calls = [e for e in calls if e.name not in ("setup", "adjust")]
+    other_writes = [x for x in S.events if x.kind == "write" and canon(x.obj) == canon(paper) and x.field not in ("parent", "root", "_paper_trade")]
+    chk.ob("C09.R1", not other_calls and not other_writes, CORE, host, "shadow-keeps-settings",
+           "nothing else is changed on the shadow: it must run with exactly the settings (position mode, commissions, algos) of the live sub-strategy", where=fi.where,
+           expected="only parent / root / _paper_trade, setup() and adjust()", found="; ".join([e.name + "()" for e in other_calls] + ["." + x.field for x in other_writes]))
     st = [e for e in calls if e.name == "setup"]
     ad = [e for e in calls if e.name == "adjust"]
     universe = ("param", "universe")
@@ -384,3 +389,117 @@ def set_order_rules(chk, pid):
                        where="%s:%d" % (f.module, node.lineno), expected="an order derived from the data (or sorted)", found=ast.unparse(node)[:120])
     chk.ob("C11.R5", True, CORE, "<program>", "set-order-scan", "scan of every set construction in the program", sample={"set_constructions_scanned": n})
     chk.floor_count("C11.R5:set constructions scanned", n, 3)
+
+
+# ------------------------------------------------------------------------------------------------
+# C11 additions: set-typed attributes, input-data mutation, shared mutable class state
+
+
+def set_typed_attribute_order(chk, pid):
+    """T-SETORD through attributes: an attribute that is created as a set must not be iterated to build something ordered
+    (frame columns, list items); membership tests and .add are fine."""
+    set_attrs = {}
+    for f in chk.prog.all_functions(modules=(CORE, ALGOS, BACKTEST)):
+        for node in ast.walk(f.node):
+            if isinstance(node, ast.Assign) and len(node.targets) == 1 and isinstance(node.targets[0], ast.Attribute) and _is_set_expr(node.value):
+                set_attrs.setdefault(node.targets[0].attr, []).append("%s:%d" % (f.module, node.lineno))
+    n = 0
+    for f in chk.prog.all_functions(modules=(CORE, ALGOS, BACKTEST)):
+        for node in ast.walk(f.node):
+            iters = []
+            if isinstance(node, ast.For):
+                iters.append((node.iter, node.body))
+            elif isinstance(node, (ast.ListComp, ast.GeneratorExp, ast.DictComp)):
+                for g in node.generators:
+                    iters.append((g.iter, [node]))
+            for it, body in iters:
+                if isinstance(it, ast.Attribute) and it.attr in set_attrs:
+                    n += 1
+                    ordered = isinstance(node, (ast.ListComp, ast.DictComp)) or any(
+                        (isinstance(c, ast.Call) and isinstance(c.func, ast.Attribute) and c.func.attr in ("append", "extend", "insert"))
+                        or (isinstance(c, (ast.Assign, ast.AugAssign)) and any(isinstance(t, ast.Subscript) for t in (c.targets if isinstance(c, ast.Assign) else [c.target])))
+                        for b in body for c in ast.walk(b))
+                    chk.ob("C11.R5", not ordered, f.module, f.qual, "set-attribute-order:%s" % it.attr,
+                           "an attribute created as a set (%s) is iterated to build something ordered (columns / list items): the result depends on the interpreter's hash seed" % set_attrs[it.attr][0],
+                           where="%s:%d" % (f.module, node.lineno), expected="a list (insertion order)", found=ast.unparse(it))
+    chk.note("set-typed attributes: %s; %d iterations inspected" % (sorted(set_attrs), n))
+
+
+def input_data_never_mutated(chk, pid):
+    """C11.R1 for algos: data frames that reach an algo from the caller (get_data, constructor-supplied frames, the universe) are never modified in place."""
+    from .c04 import algo_classes, full_attrs_of
+
+    n = 0
+    for c in algo_classes(chk.prog):
+        if "__call__" not in c.methods:
+            continue
+        S = chk.summary(ALGOS, c.name, "__call__", host=c.name, depth=3)
+        full = full_attrs_of(S)
+        gd = set(e.result for e in S.events if e.kind == "call" and e.name == "get_data" and e.result is not None)
+
+        def is_input(v):
+            # strip pure selections; a method call that returns a new object (dropna, copy, loc[...] rows) ends the chain
+            while True:
+                if v in gd:
+                    return True
+                if v[0] == "fld" and v[1] == SELF and v[2] in full:
+                    return True
+                if v[0] == "prop" and v[2] in ("universe",):
+                    return True
+                if v[0] == "fld" and v[2] in ("_funiverse", "_universe", "_original_data"):
+                    return True
+                if v[0] == "ite":
+                    return is_input(v[2]) or is_input(v[3])
+                if v[0] == "sub" and v[1][0] != "attr":
+                    v = v[1]
+                    continue
+                if v[0] == "mcall" and v[2] in ("get",):
+                    v = v[1]
+                    continue
+                return False
+
+        for e in S.events:
+            tgt = None
+            if e.kind == "call" and (e.extra == "mutate" or (e.kwargs or {}).get("inplace") == ("bool", True)) and e.recv is not None:
+                tgt = e.recv
+            elif e.kind == "store":
+                tgt = e.base[1] if e.base[0] == "attr" and e.base[2] in ("loc", "iloc", "values", "at", "iat") else e.base
+            if tgt is None:
+                continue
+            n += 1
+            bad = is_input(tgt)
+            chk.ob("C11.R1", not bad, ALGOS, "%s.__call__" % c.name, "input-data-mutated:%s" % (e.name or "store"),
+                   "an algo never modifies, in place, a data frame it was handed by the caller (additional data is passed by reference)", where=e.where,
+                   expected="work on a copy", found=short(tgt, 120), sample={"algo": c.name, "target": short(tgt, 80)} if bad else None)
+    chk.floor_count("C11.R1:in-place operations in algos", n, 10)
+
+
+def no_shared_class_state(chk, pid):
+    """backtests built from one template are independent: deepcopy does not copy class attributes, so mutable class-level
+    containers that methods write into are shared between all backtests of a process."""
+    n = 0
+    for c in chk.prog.classes.values():
+        if c.module not in (CORE, ALGOS, BACKTEST):
+            continue
+        shared = {}
+        for st in c.node.body:
+            if isinstance(st, ast.Assign) and len(st.targets) == 1 and isinstance(st.targets[0], ast.Name):
+                v = st.value
+                if isinstance(v, (ast.Dict, ast.List, ast.Set)) or (isinstance(v, ast.Call) and isinstance(v.func, ast.Name) and v.func.id in ("dict", "list", "set", "defaultdict", "OrderedDict")):
+                    shared[st.targets[0].id] = st.lineno
+        n += 1
+        for name, line in shared.items():
+            written = False
+            for m in c.methods.values():
+                for node in ast.walk(m.node):
+                    if isinstance(node, (ast.Assign, ast.AugAssign)):
+                        for t in (node.targets if isinstance(node, ast.Assign) else [node.target]):
+                            if isinstance(t, ast.Subscript) and isinstance(t.value, ast.Attribute) and t.value.attr == name:
+                                written = True
+                    if isinstance(node, ast.Call) and isinstance(node.func, ast.Attribute) and node.func.attr in ("append", "add", "update", "setdefault", "extend") and \
+                            isinstance(node.func.value, ast.Attribute) and node.func.value.attr == name:
+                        written = True
+            chk.ob("C11.R3", not written, c.module, c.name, "shared-class-state:%s" % name,
+                   "a mutable container defined on the class and written by its methods is shared by every copy of the template: backtests are no longer independent of each other or of run order",
+                   where="%s:%d" % (c.module, line), expected="per-instance state created in __init__", found="class attribute %s written by a method" % name)
+    chk.note("%d classes scanned for shared mutable class state" % n)
